@@ -319,3 +319,40 @@ Lemma replace_absent_l : forall old new s, old <> EmptyString ->
 Proof.
   intros old new s N H. unfold replace_all. destruct old; [congruence|]. apply replace_fuel_absent. exact H.
 Qed.
+
+(* ------------------------------------------------------------------ split() on white space, declaratively *)
+Fixpoint no_space (s : string) : bool :=
+  match s with EmptyString => true | String a s' => negb (is_space a) && no_space s' end.
+Fixpoint drop_spaces (s : string) : string :=
+  match s with EmptyString => EmptyString | String a s' => if is_space a then drop_spaces s' else String a (drop_spaces s') end.
+Definition sconcat (l : list string) : string := fold_right append EmptyString l.
+Definition good_field (f : string) : bool := negb (String.eqb f "") && no_space f.
+
+Lemma no_space_app : forall a b, no_space (a ++ b) = no_space a && no_space b.
+Proof. induction a as [|x a IH]; intros b; cbn; [reflexivity|]. rewrite IH, andb_assoc. reflexivity. Qed.
+Lemma app_nonempty : forall a x, String.eqb (a ++ String x EmptyString) "" = false.
+Proof. intros [|y a] x; reflexivity. Qed.
+
+Lemma fields_go_spec : forall s cur, no_space cur = true ->
+  sconcat (fields_go cur s) = (cur ++ drop_spaces s)%string /\
+  forallb good_field (fields_go cur s) = true.
+Proof.
+  induction s as [|a s IH]; intros cur Hc; cbn [fields_go drop_spaces].
+  - destruct cur as [|c cur']; cbn.
+    + split; reflexivity.
+    + split; [rewrite !sapp_nil_r; reflexivity|]. unfold good_field. cbn. cbn in Hc. rewrite Hc. reflexivity.
+  - destruct (is_space a) eqn:E.
+    + destruct cur as [|c cur'].
+      * apply (IH EmptyString). reflexivity.
+      * destruct (IH EmptyString eq_refl) as [A B]. split.
+        -- cbn [sconcat fold_right]. fold (sconcat (fields_go "" s)). rewrite A. reflexivity.
+        -- cbn [forallb]. rewrite B. unfold good_field. cbn. cbn in Hc. rewrite Hc. reflexivity.
+    + assert (Hc' : no_space (cur ++ String a "") = true).
+      { rewrite no_space_app, Hc. cbn. rewrite E. reflexivity. }
+      destruct (IH _ Hc') as [A B]. split; [|exact B].
+      rewrite A, sapp_assoc. reflexivity.
+Qed.
+
+Lemma fields_spec_l : forall s,
+  sconcat (fields s) = drop_spaces s /\ forallb good_field (fields s) = true.
+Proof. intro s. exact (fields_go_spec s EmptyString eq_refl). Qed.
